@@ -194,7 +194,7 @@ class Walk:
         rc, par, _ = self.r.plain_git("rev-parse", "--verify", "-q", sha + "^")
         parent = par.strip() if rc == 0 else "4b825dc642cb6eb9a060e54bf8d69288fbee4904"
         # commit lines the commit adds that an unstaged hunk replaces offset for offset (commit coordinates;
-        # since /repo c5877be3 the split compares them in commit coordinates too)
+        # since /repo cfbf8496 the split compares them in commit coordinates too)
         ov = split_corr.replaced_committed_lines(self.r, parent, sha)
         if ov:
             self.overlap[sha] = ov
